@@ -278,7 +278,9 @@ def sweeps(tier, rng):
         from props.C07 import gen_feature_program
         n = 240 if tier == "quick" else 500 if tier == "search" else 6000
         for i in range(n):
-            if i % 2:
+            if i % 3 == 2:
+                P2 = gen_program2(rng); text = to_fea2(P2); order = [".notdef"] + P2["base"] + MARKS + P2["extra"]
+            elif i % 2:
                 text, expanded = gen_value_program(rng); order = None
                 bad = named_equals_expanded(text, expanded)
                 if bad:
@@ -569,3 +571,252 @@ def _interp_sweep(tier, rng):
 _sweeps_stage1 = sweeps
 def sweeps(tier, rng):
     return _sweeps_stage1(tier, rng) + [Sweep("harfbuzz-vs-rule-text", lambda: _interp_sweep(tier, rng))]
+
+# ------------------------------------------------------------------ second program family: marks, lookup flags, inline rules, rsub
+MARKS = ["m1", "m2", "m3"]; MARK_CHARS = {"x": "m1", "y": "m2", "z": "m3"}
+BASES2 = list("abcde")
+
+def gen_program2(rng):
+    """-> dict(base, extra, named=[group], features=[(tag, [item])]) where a group is dict(name, flag, kind, rules) and an item is
+    ('ref', name) or ('inline', group). flag: None | 'IgnoreMarks' | ('filter', [marks])"""
+    base = BASES2[:rng.randint(3, 5)]; extra = []
+    def new(n):
+        if n not in extra and n not in base and n not in MARKS: extra.append(n)
+        return n
+    allg = lambda: base + extra
+    def flag():
+        k = rng.below(10)
+        if k < 4: return None
+        if k < 6: return "IgnoreMarks"
+        return ("filter", sorted(rng.sample(MARKS, rng.randint(1, 2))))
+    def group(name, kinds):
+        kind = rng.choice(kinds); rules = []
+        if kind == "single":
+            suf = rng.choice([".s", ".t"])
+            for g in rng.sample(allg() + MARKS[:1], rng.randint(1, 3)):
+                if not g.endswith(suf) and g not in MARKS: rules.append((g, new(g + suf)))
+        elif kind == "ligature":
+            seen = set()
+            for _ in range(rng.randint(1, 3)):
+                comps = tuple(rng.choice(allg()) for _ in range(rng.randint(2, 3)))
+                if comps in seen: continue
+                seen.add(comps); rules.append((list(comps), new("lig%d" % len(extra))))
+        elif kind == "pair":
+            seen = set()
+            for _ in range(rng.randint(1, 4)):
+                a, b = rng.choice(allg()), rng.choice(allg() + MARKS)
+                if (a, b) in seen: continue
+                seen.add((a, b)); rules.append((a, b, rng.randint(-80, 80)))
+        elif kind == "rsub":
+            tg = rng.sample(base, rng.randint(1, min(3, len(base))))          # written in ANY order, not glyph order
+            rules.append(([sorted(set(rng.sample(allg() + MARKS, rng.randint(1, 2)))) for _ in range(rng.randint(0, 1))], tg,
+                          [new(g + ".r") for g in tg], [sorted(set(rng.sample(allg(), rng.randint(1, 2)))) for _ in range(rng.randint(0, 1))]))
+        return {"name": name, "flag": flag(), "kind": kind, "rules": rules} if rules else None
+    named = []
+    for i in range(rng.randint(1, 3)):
+        g = group("N%d" % i, ["single", "single", "ligature", "rsub"])
+        if g: named.append(g)
+    singles = [g for g in named if g["kind"] == "single"]
+    ctx = []
+    if singles and rng.chance(60):
+        rules = []
+        sets = lambda: sorted(set(rng.choice(allg() + MARKS) for _ in range(rng.randint(1, 2))))
+        for _ in range(rng.randint(1, 3)):
+            tgt = rng.choice(singles); g0 = rng.choice(tgt["rules"])[0]
+            inp = [([g0], tgt["name"])] + ([(sets(), None)] if rng.chance(40) else [])
+            rules.append(([sets() for _ in range(rng.randint(0, 2))], inp, [sets() for _ in range(rng.randint(0, 1))]))
+        ctx.append({"name": "X0", "flag": flag(), "kind": "chain", "rules": rules})
+    called = {l for c in ctx for (_, inp, _) in c["rules"] for (_, l) in inp if l}
+    feats = []
+    sub_tags = ["ccmp", "liga", "calt", "rlig"]; rng.shuffle(sub_tags)
+    pool_named = [g for g in named if not (g["name"] in called and rng.chance(60))] + ctx
+    for tag in sub_tags[:rng.randint(1, 3)]:
+        items = []; last = None
+        for _ in range(rng.randint(1, 3)):
+            if pool_named and rng.chance(40):
+                g = pool_named.pop(rng.below(len(pool_named))); items.append(("ref", g["name"])); last = None
+            else:
+                g = group(None, ["single", "ligature", "ligature"])
+                if g is None: continue
+                if last and last["flag"] == g["flag"]:
+                    # written back to back with the same flag, substitutions of compatible types are ONE lookup (single rules are
+                    # promoted into a ligature lookup): give the second group its own flag so that it is a lookup of its own
+                    g["flag"] = "IgnoreMarks" if g["flag"] != "IgnoreMarks" else ("filter", [MARKS[0]])
+                items.append(("inline", g)); last = g
+        if items: feats.append((tag, items))
+    if rng.chance(60):
+        items = []; last = None
+        for _ in range(rng.randint(1, 2)):
+            g = group(None, ["pair"])
+            if g is None: continue
+            if last and last["flag"] == g["flag"]: g["flag"] = "IgnoreMarks" if g["flag"] != "IgnoreMarks" else None
+            items.append(("inline", g)); last = g
+        if items: feats.append((rng.choice(["kern", "dist"]), items))
+    return {"base": base, "extra": extra, "named": named + ctx, "features": feats}
+
+def to_fea2(P):
+    cls = lambda s: s[0] if len(s) == 1 else "[%s]" % " ".join(s)
+    def flag_stmt(f):
+        if f is None: return "lookupflag 0;"
+        if f == "IgnoreMarks": return "lookupflag IgnoreMarks;"
+        return "lookupflag UseMarkFilteringSet [%s];" % " ".join(f[1])
+    def rules_text(g):
+        out = []
+        for r in g["rules"]:
+            k = g["kind"]
+            if k == "single": out.append("sub %s by %s;" % r)
+            elif k == "ligature": out.append("sub %s by %s;" % (" ".join(r[0]), r[1]))
+            elif k == "pair": out.append("pos %s %s %d;" % r)
+            elif k == "rsub":
+                pre, tg, by, suf = r
+                out.append("rsub %s %s' %s by %s;" % (" ".join(cls(s) for s in pre), cls(tg), " ".join(cls(s) for s in suf), cls(by)))
+            elif k == "chain":
+                pre, inp, suf = r
+                out.append("sub %s;" % " ".join([cls(s) for s in pre] + [cls(s) + "'" + (" lookup %s" % l if l else "") for s, l in inp] + [cls(s) for s in suf]))
+        return out
+    allg = P["base"] + P["extra"]
+    fea = ["languagesystem DFLT dflt;", "table GDEF {\n  GlyphClassDef [%s], , [%s], ;\n} GDEF;" % (" ".join(allg), " ".join(MARKS))]
+    for g in P["named"]:
+        fea.append("lookup %s {\n  %s\n  %s\n} %s;" % (g["name"], flag_stmt(g["flag"]), "\n  ".join(rules_text(g)), g["name"]))
+    for tag, items in P["features"]:
+        body = []
+        for kind, x in items:
+            if kind == "ref": body.append("lookup %s;" % x)
+            else: body += [flag_stmt(x["flag"])] + rules_text(x)
+        fea.append("feature %s {\n  %s\n} %s;" % (tag, "\n  ".join(body), tag))
+    return "\n".join(fea) + "\n"
+
+def interpret2(P, glyphs, adv):
+    """the program as written, with lookup flags: returns [(name, x_advance)]"""
+    named = {g["name"]: g for g in P["named"]}
+    # lookups in the order they are written: named blocks first, then the inline groups feature by feature
+    order = list(P["named"])
+    active = []
+    for tag, items in P["features"]:
+        for kind, x in items:
+            if kind == "ref": active.append(named[x])
+            else: order.append(x); active.append(x)
+    idx = {id(g): i for i, g in enumerate(order)}
+    buf = [[g, 0] for g in glyphs]
+    def skipped(glyph, flag):
+        if glyph not in MARKS or flag is None: return False
+        return True if flag == "IgnoreMarks" else glyph not in flag[1]
+    def fwd(i, flag):
+        j = i + 1
+        while j < len(buf) and skipped(buf[j][0], flag): j += 1
+        return j if j < len(buf) else None
+    def back(i, flag):
+        j = i - 1
+        while j >= 0 and skipped(buf[j][0], flag): j -= 1
+        return j if j >= 0 else None
+    def match_fwd(sets, start, flag):
+        """positions of consecutive unskipped glyphs after `start` matching the sets"""
+        pos = []; j = start
+        for s in sets:
+            j = fwd(j, flag)
+            if j is None or buf[j][0] not in s: return None
+            pos.append(j)
+        return pos
+    def match_back(sets, start, flag):
+        j = start
+        for s in reversed(sets):
+            j = back(j, flag)
+            if j is None or buf[j][0] not in s: return False
+        return True
+    def apply_single_at(g, i):
+        if skipped(buf[i][0], g["flag"]): return
+        for a, b in g["rules"]:
+            if a == buf[i][0]: buf[i][0] = b; return
+    def run(g):
+        flag = g["flag"]; kind = g["kind"]
+        if kind == "rsub":
+            for i in range(len(buf) - 1, -1, -1):
+                if skipped(buf[i][0], flag): continue
+                for pre, tg, by, suf in g["rules"]:
+                    if buf[i][0] in tg and match_back(pre, i, flag) and match_fwd(suf, i, flag) is not None:
+                        buf[i][0] = by[tg.index(buf[i][0])]; break
+            return
+        i = 0
+        while i < len(buf):
+            if skipped(buf[i][0], flag): i += 1; continue
+            nxt = i + 1
+            if kind == "single":
+                for a, b in g["rules"]:
+                    if a == buf[i][0]: buf[i][0] = b; break
+            elif kind == "ligature":
+                for comps, lig in sorted(g["rules"], key=lambda r: -len(r[0])):
+                    if buf[i][0] != comps[0]: continue
+                    pos = match_fwd([[c] for c in comps[1:]], i, flag)
+                    if pos is None: continue
+                    buf[i][0] = lig
+                    last = pos[-1]
+                    for j in reversed(pos): del buf[j]
+                    nxt = last - len(pos) + 1
+                    break
+            elif kind == "pair":
+                j = fwd(i, flag)
+                if j is not None:
+                    for a, b, v in g["rules"]:
+                        if a == buf[i][0] and b == buf[j][0]: buf[i][1] += v; break
+            elif kind == "chain":
+                for pre, inp, suf in g["rules"]:
+                    if buf[i][0] not in inp[0][0]: continue
+                    pos = match_fwd([s for s, _ in inp[1:]], i, flag)
+                    if pos is None: continue
+                    pos = [i] + pos
+                    if not match_back(pre, i, flag) or match_fwd(suf, pos[-1], flag) is None: continue
+                    for (s_, l), p_ in zip(inp, pos):
+                        if l: apply_single_at(named[l], p_)
+                    nxt = pos[-1] + 1
+                    break
+            i = nxt
+    for stage in ("sub", "pos"):
+        for g in sorted({id(g): g for g in active}.values(), key=lambda g: idx[id(g)]):
+            if (g["kind"] == "pair") != (stage == "pos"): continue
+            run(g)
+    return [(g, adv[g] + a) for g, a in buf]
+
+def build_program_font2(P):
+    from fontTools.fontBuilder import FontBuilder
+    from fontTools.feaLib.builder import addOpenTypeFeaturesFromString
+    from props.C07 import _box
+    order = [".notdef"] + P["base"] + MARKS + P["extra"]
+    adv = {g: (0 if g in MARKS else 400 + 17 * i) for i, g in enumerate(order)}
+    fb = FontBuilder(1000, isTTF=True); fb.setupGlyphOrder(order)
+    cm = {ord(c): c for c in P["base"]}; cm.update({ord(c): g for c, g in MARK_CHARS.items()})
+    fb.setupCharacterMap(cm)
+    fb.setupGlyf({g: _box(max(adv[g], 100)) for g in order}); fb.setupHorizontalMetrics({g: (adv[g], 20) for g in order})
+    fb.setupHorizontalHeader(ascent=800, descent=-200); fb.setupNameTable({"familyName": "Gen11b", "styleName": "R"}); fb.setupOS2(); fb.setupPost()
+    addOpenTypeFeaturesFromString(fb.font, to_fea2(P))
+    b = io.BytesIO(); fb.font.save(b)
+    return b.getvalue(), order, adv
+
+def _interp_sweep2(tier, rng):
+    from lib.hb import HBFont
+    from fontTools.feaLib.error import FeatureLibError
+    n = 200 if tier == "quick" else 400 if tier == "search" else 5000
+    inv = {g: c for c, g in MARK_CHARS.items()}
+    for i in range(n):
+        P = gen_program2(rng); fea = to_fea2(P)
+        try:
+            data, order, adv = build_program_font2(P)
+        except FeatureLibError:
+            yield (("program2", i, "rejected"), None); continue
+        except Exception as e:
+            yield (("program2", i), "generator/compile failed: %r\n%s" % (e, fea)); continue
+        h = HBFont(data, order)
+        alphabet = P["base"] + MARKS
+        texts = [[a] for a in alphabet] + [[a, b] for a in alphabet for b in alphabet]
+        for _ in range(150): texts.append([rng.choice(alphabet if rng.chance(70) else P["base"]) for _ in range(rng.randint(3, 6))])
+        bad = None
+        for t in texts:
+            s = "".join(inv.get(g, g) for g in t)
+            got = [(g, xa) for g, xa, ya, xo, yo in h.shape(s)]
+            want = interpret2(P, list(t), adv)
+            if got != want:
+                bad = "glyphs %r: compiled tables give %r, the rules say %r\n%s" % (t, got, want, fea); break
+        yield (("program2", i), bad)
+
+_sweeps_stage2 = sweeps
+def sweeps(tier, rng):
+    return _sweeps_stage2(tier, rng) + [Sweep("harfbuzz-vs-rule-text-flags", lambda: _interp_sweep2(tier, rng))]
